@@ -8,6 +8,7 @@ import (
 	"os"
 
 	"github.com/hashicorp/consul/internal/verifmc/c03"
+	"github.com/hashicorp/consul/internal/verifmc/c04"
 	"github.com/hashicorp/consul/internal/verifmc/c05"
 	"github.com/hashicorp/consul/internal/verifmc/c06"
 	"github.com/hashicorp/consul/internal/verifmc/c08"
@@ -31,6 +32,7 @@ type checkDef struct {
 
 var checks = map[string]checkDef{
 	"C03": {"model_checking", c03.Run},
+	"C04": {"model_checking", c04.Run},
 	"C05": {"model_checking", c05.Run},
 	"C06": {"model_checking", c06.Run},
 	"C08": {"exploration", func(c *ev.Ctx) { c08.Run(c); c08r.Run(c); c08s.Run(c) }},
